@@ -230,6 +230,7 @@ def stepLine (st : DState × Pending) (line : String) : (DState × Pending) × S
     | ["crash"] => .recover
     | _ => if ends then .none else st.2
   let r := stepLine1 x line
-  ((r.1, pend), r.2)
+  -- between the crash and the end of its group the state is the loaded, not yet recovered one: not compared
+  ((r.1, pend), if pend == .recover && line == "dump" then "unrecovered" else r.2)
 
 end AndaVerif.DrvColl
